@@ -4,7 +4,10 @@ import glob, json, os
 V = os.path.dirname(os.path.dirname(os.path.abspath(__file__)))
 props = [json.loads(l)["id"] for l in open(os.path.join(V, "properties.jsonl"))]
 checks, claimed = [], set()
+ready = set(json.load(open(os.path.join(V, "meta", "ready.json"))))  # ids whose check has been integrated and passes on /repo
 for pid in props:
+    if pid not in ready:
+        continue
     p = os.path.join(V, "meta", pid + ".json")
     if not os.path.exists(p):
         continue
